@@ -536,18 +536,26 @@ func (e *Enc) specCall(n *ast.CallExpr, env *SpecEnv) Val {
 		}
 		var found *ssa.Call
 		cnt := 0
+		want := 0 // 0: the call must be the only one; n: the n-th call in block order
+		if len(n.Args) > 2 {
+			if ol, ok := n.Args[2].(*ast.BasicLit); ok {
+				fmt.Sscanf(ol.Value, "%d", &want)
+			}
+		}
 		for _, b := range env.f.fn.Blocks {
 			for _, ins := range b.Instrs {
 				if c, ok := ins.(*ssa.Call); ok {
 					if sc := c.Common().StaticCallee(); sc != nil && e.w.funcName(sc) == cname {
-						found = c
 						cnt++
+						if want == 0 || cnt == want {
+							found = c
+						}
 					}
 				}
 			}
 		}
-		if cnt != 1 {
-			specFail("callres(%q): %d static calls in the body (need exactly one)", cname, cnt)
+		if (want == 0 && cnt != 1) || (want > 0 && cnt < want) {
+			specFail("callres(%q): %d static calls in the body", cname, cnt)
 		}
 		v, ok := env.f.vals[found]
 		if !ok {
